@@ -155,8 +155,8 @@ func DateFormatHandle(data interface{}, precision string, fmts string) (string, 
 	case "s":
 		t = time.Unix(v, 0)
 	case "ms":
-		num := v * int64(time.Millisecond)
-		t = time.Unix(0, num)
+		// (not time.Unix(0, v*1e6): the product leaves int64 for stamps after 2262 or before 1677)
+		t = time.UnixMilli(v)
 	default:
 		return "", fmt.Errorf("precision %v no support", precision)
 	}
